@@ -55,6 +55,11 @@ CHECKS = {
    note="Partial: template clauses of the contract and acceptance by the C program are checked per case, not proved (no C semantics installed). Trusted: as C04 plus clang sanitizers. Axioms: none.",
    technique="Coq proofs on representatives + extracted contract predicate on real files + sanitised binary acceptance",
    design="5 C05"),
+ "C13": dict(
+   text="Proof: on the character-level model of process_list, brace duplication of any line (any number of groups, any number of alternatives incl. empty ones, arbitrary surrounding text) equals the declarative hand expansion -- the cartesian product of the alternatives with the leftmost group varying slowest and all other text untouched -- also with the fuel the model actually uses; and <expression> replacement equals segment-wise substitution of the decimal values, left to right (3 theorems, closed). Both loaders consume only process_list's text, so compile(template,args) = compile(expansion) follows by congruence; this last step and the text-level behaviour are checked by correspondence: process_list vs model vs hand expansion on free-form templates, and compile(template,args) vs compile(hand-expanded file) on well-formed ones.",
+   note="Trusted: Coq kernel; extraction/driver; Python's eval is outside the model (integer expression subset supplied as ASTs keyed by source text; anything else is reported unsupported, never agreement); harness hand_expand transcription. Axioms: none.",
+   technique="Coq proofs on a character-level substitution model + text-level and compile-level correspondence",
+   design="5 C13"),
 }
 
 checks = []
